@@ -3,9 +3,13 @@
 package props
 
 import (
+	"bytes"
 	"fmt"
 	"math/big"
 	"testing"
+
+	eventsdb "github.com/MinterTeam/minter-go-node/coreV2/events"
+	"github.com/MinterTeam/minter-go-node/rlp"
 
 	"github.com/MinterTeam/minter-go-node/coreV2/state/commission"
 	tx "github.com/MinterTeam/minter-go-node/coreV2/transaction"
@@ -141,6 +145,30 @@ func TestC27(t *testing.T) {
 		}
 		var p pre
 		custom, accepted := 0, 0
+		// The reference price table is the harness's own copy: taken at genesis and again at every
+		// height whose events announce a commission update. The node's live table must stay equal to
+		// it in between (it is shared, cached state: nothing but a passed vote may change it).
+		copyTable := func() *commission.Price {
+			enc, err := rlp.EncodeToBytes(h.N.App.CurrentState().Commission().GetCommissions())
+			if err != nil {
+				t.Fatalf("harness: encode price table: %v", err)
+			}
+			out := &commission.Price{}
+			if err := rlp.DecodeBytes(enc, out); err != nil {
+				t.Fatalf("harness: decode price table: %v", err)
+			}
+			return out
+		}
+		refPrices := copyTable()
+		tableUpdates := 0
+		h.R.H.AfterCommit = func(height uint64) {
+			for _, e := range h.N.App.GetEventsDB().LoadEvents(uint32(height)) {
+				if _, ok := e.(*eventsdb.UpdateCommissionsEvent); ok {
+					refPrices = copyTable()
+					tableUpdates++
+				}
+			}
+		}
 		quote := func(cs0 *historyState, base *big.Int, gas types.CoinID) (*big.Int, string) {
 			return nil, ""
 		}
@@ -156,7 +184,12 @@ func TestC27(t *testing.T) {
 				return
 			}
 			cs := h.N.App.CurrentState()
-			table := cs.Commission().GetCommissions()
+			live, _ := rlp.EncodeToBytes(cs.Commission().GetCommissions())
+			want, _ := rlp.EncodeToBytes(refPrices)
+			if !bytes.Equal(live, want) {
+				violation(t, "price-table-changed-without-vote", h.R, "the price table the node charges from differs from the table of the last commission update (or genesis): now %+v, then %+v", cs.Commission().GetCommissions(), refPrices)
+			}
+			table := refPrices
 			tp := refTypePrice(d, table)
 			if tp == nil {
 				return
@@ -334,6 +367,7 @@ func TestC27(t *testing.T) {
 		h.flushExcluded()
 		h.labelKinds("C27/")
 		sim.S.LabelN("C27/accepted-with-custom-gas-or-table-coin", custom)
+		sim.S.LabelN("C27/price-table-updates", tableUpdates)
 		sim.S.Case("TestC27", accepted > 0 && (custom > 0 || h.R.RejectedRun > 0), sim.HashStrings(h.R.Steps), func() interface{} { return sim.HistorySample(h.R.Steps, 25) })
 	})
 }
